@@ -21,6 +21,7 @@ import copy
 from dataclasses import replace
 
 from ..cache import CacheAnalysis, _is_fetch, none_tested_field
+from ..normalize import Normalizer, single_assignments
 
 
 def _negate(t):
@@ -86,6 +87,63 @@ def _block(stmts, sn):
 
 
 _NORM: dict = {}
+_EXPANDER: list = [None]
+
+
+class _SelfPassing(Normalizer):
+    """Expands, in place, only the calls that hand the object itself to a function the summaries of sa/cache.py do not follow:
+    `helper(self, ..)` (module-level function of the package) and `Class.method(self, ..)` (explicit receiver).  What such a helper
+    stores in / resets on the object then happens in the caller's body, under the caller's name for the object."""
+
+    def _callee(self, fn, call):
+        sn = fn.self_name
+        if sn is None:
+            return None
+        passed = [a for a in call.args if isinstance(a, ast.Name) and a.id == sn] + [k.value for k in call.keywords if isinstance(k.value, ast.Name) and k.value.id == sn]
+        if not passed:
+            return None
+        f = call.func
+        target = None
+        if isinstance(f, ast.Name):
+            r = self.p.resolve_name(fn.module, f.id)
+            target = r[1] if r and r[0] == "func" else None
+        elif isinstance(f, ast.Attribute) and isinstance(f.value, ast.Name) and f.value.id not in (sn, "self", "cls"):
+            r = self.p.resolve_name(fn.module, f.value.id)
+            if r and r[0] == "class":
+                m = r[1].lookup(f.attr)
+                target = m[2] if m and m[1] == "method" and m[2].kind == "method" else None
+            elif r and r[0] == "module":
+                target = r[1].functions.get(f.attr)
+        if target is None or target.node is fn.node:
+            return None
+        a = target.node.args
+        if a.vararg or a.kwarg or any(isinstance(x, ast.Starred) for x in call.args) or any(k.arg is None for k in call.keywords):
+            return None
+        if any(ast.unparse(d) not in ("staticmethod",) for d in target.node.decorator_list):
+            return None
+        if any(isinstance(x, (ast.Yield, ast.YieldFrom, ast.Global, ast.Nonlocal, ast.FunctionDef, ast.Lambda)) for st in target.node.body for x in ast.walk(st)):
+            return None
+        return target
+
+
+def use_project(project):
+    """the project the functions handed to canonical() belong to (needed to find the helpers the object is passed to)"""
+    if _EXPANDER[0] is None or _EXPANDER[0].p is not project:
+        _EXPANDER[0] = _SelfPassing(project, depth=1)
+        _NORM.clear()
+
+
+def _unalias_self(node, sn):
+    """names bound exactly once, by `x = self`, are the object itself: written `self` again (helper parameters after expansion, `me = self`)"""
+    aliases = {k for k, v in single_assignments(node).items() if isinstance(v, ast.Name) and v.id == sn}
+    if not aliases:
+        return node
+
+    class R(ast.NodeTransformer):
+        def visit_Name(self, n):
+            return ast.copy_location(ast.Name(id=sn, ctx=n.ctx), n) if n.id in aliases and isinstance(n.ctx, ast.Load) else n
+
+    return R().visit(node)
 
 
 def canonical(fn):
@@ -98,7 +156,23 @@ def canonical(fn):
     if sn is None:
         _NORM[key] = (fn.node, fn)
         return fn
+    def passes_self(nd):
+        return any(isinstance(x, ast.Name) and x.id == sn for c in ast.walk(nd) if isinstance(c, ast.Call) for x in list(c.args) + [k.value for k in c.keywords])
+
     node = copy.deepcopy(fn.node)
+    for _round in range(3):  # a helper handing the object on to another helper: one level per round, the parameter un-aliased in between
+        if _EXPANDER[0] is None or not passes_self(node):
+            break
+        try:
+            _EXPANDER[0]._views.clear()  # its cache is keyed by id(node): the nodes of earlier rounds are gone
+            new = _EXPANDER[0].view(replace(fn, node=node), inline=True, consts=False).node
+        except Exception:  # an expansion that cannot be done leaves the function as it is
+            break
+        new = _unalias_self(new, sn)
+        if ast.dump(new) == ast.dump(node):
+            break
+        node = new
+    node = _unalias_self(node, sn)
     node.body = _block(node.body, sn)
     ast.fix_missing_locations(node)
     new = replace(fn, node=node)
